@@ -62,10 +62,72 @@ def model_text(ob, limit=4000):
         return str(ob.model)[:limit]
 
 
-def ob_record(symbol, n, ob):
+def model_input(ob, args):
+    """the solver's counter-model read back as a concrete argument tuple of the kernel (scalars and the
+    first IN_SIZE elements of every input array as they are on entry).  A counter-model of an obligation inside
+    a loop describes an arbitrary iteration, so this is only a *candidate*: it counts as a failing input if the
+    compiled kernel and the definition really disagree on it."""
+    m = ob.model
+    if m is None or not args:
+        return None
+    try:
+        # prefer a counter-model whose scalar arguments are small enough for the replay buffers
+        s = z3.Solver()
+        s.set("timeout", 3000)
+        for h in ob.hyps:
+            s.add(h)
+        s.add(z3.Not(ob.claim))
+        for a in args:
+            depth, base = native.parse_type(a["type"])
+            if depth == 0 and base not in ("bool", "float", "double"):
+                s.add(z3.Int(a["name"]) >= -difftest.IN_SIZE, z3.Int(a["name"]) <= difftest.IN_SIZE)
+        if s.check() == z3.sat:
+            m = s.model()
+        decls = {d.name(): d for d in m.decls()}
+
+        def num(x, base):
+            if z3.is_int_value(x):
+                v = x.as_long()
+            elif z3.is_true(x):
+                v = 1
+            elif z3.is_false(x):
+                v = 0
+            else:
+                v = 0
+            if base == "bool":
+                return bool(v)
+            if base in ("float", "double"):
+                return float(v)
+            return v
+        vals = {}
+        for a in args:
+            depth, base = native.parse_type(a["type"])
+            d = decls.get(a["name"])
+            if depth == 0:
+                vals[a["name"]] = num(m[d], base) if d is not None and d.arity() == 0 else num(None, base)
+            elif depth == 1:
+                if a["dir"] == "out":
+                    vals[a["name"]] = None
+                    continue
+                row = []
+                for i in range(difftest.IN_SIZE):
+                    if d is not None and d.arity() == 0 and z3.is_array(d()):
+                        row.append(num(m.eval(z3.Select(d(), z3.IntVal(i)), model_completion=True), base))
+                    else:
+                        row.append(num(None, base))
+                vals[a["name"]] = row
+            else:
+                return None
+        return vals
+    except Exception:
+        return None
+
+
+def ob_record(symbol, n, ob, args=None):
     return {"id": "%s:%s@%s:%s#%d" % (symbol, ob.kind, ob.label, ob.line, n), "kind": ob.kind, "label": ob.label,
             "line": ob.line, "desc": ob.desc, "status": ob.status, "time": round(ob.time, 4),
             "backend": ob.backend, "model": model_text(ob) if ob.status == "refuted" else None,
+            "model_input": model_input(ob, args) if ob.status == "refuted" else None,
             "auto": bool(ob.meta.get("auto"))}
 
 
@@ -219,7 +281,7 @@ def run_symbol(task):
                     discharge(ob)
                 if ob.meta.get("auto"):
                     continue      # inferred invariants: proved by construction (Houdini), not counted
-                res["obligations"].append(ob_record(symbol, n, ob))
+                res["obligations"].append(ob_record(symbol, n, ob, info["args"]))
                 n += 1
         # ---- E
         if "E" in opts["kinds"]:
@@ -240,7 +302,7 @@ def run_symbol(task):
                     res["e"] = "aligned"
                     for ob in L.ev.obls:
                         discharge(ob)
-                        res["obligations"].append(ob_record(symbol, n, ob))
+                        res["obligations"].append(ob_record(symbol, n, ob, info["args"]))
                         n += 1
     except Exception:
         res["errors"].append("crash: " + traceback.format_exc()[-1500:])
@@ -271,7 +333,7 @@ def run_symbols(symbols, kinds, jobs=16, functions=()):
 
 # --------------------------------------------------------------------------
 # replay
-def find_witness(symbol, seed, want=600, runner=None):
+def find_witness(symbol, seed, want=600, runner=None, candidates=()):
     """bounded differential search for a concrete input on which the compiled kernel of the
     working tree disagrees with its definition; returns (mismatch dict|None, cases, reason)"""
     init()
@@ -289,7 +351,8 @@ def find_witness(symbol, seed, want=600, runner=None):
         runner = native.KernelRunner(native.build_kernels())
     try:
         rng = random.Random(seed)
-        r = difftest.difftest(runner, symbol, info["args"], fn, rng, want=want, max_tries=want * 30)
+        r = difftest.difftest(runner, symbol, info["args"], fn, rng, want=want, max_tries=want * 30,
+                              fixed_cases=[c for c in candidates if c])
     finally:
         if own:
             runner.close()
